@@ -139,6 +139,19 @@ Definition dimpulse (num den : list Q) (n : nat) : option (list Q) :=
 Definition impulse_response (phi theta : param) (n : nat) : option (list Q) :=
   let '(ma, ar) := set_params phi theta in dimpulse ma ar n.
 
+(* one ARMA object driven by a sequence of operations: the setters phi/theta re-run set_params, sigma is a
+   plain attribute; impulse_response depends on the CURRENT parameters only (no state survives a setter).
+   The run returns the impulse responses of the Impulse operations, in order. *)
+Inductive arma_op := SetPhi (p : param) | SetTheta (p : param) | SetSigma (s : Q) | Impulse (n : nat).
+Fixpoint arma_run (phi theta : param) (sigma : Q) (ops : list arma_op) : list (option (list Q)) :=
+  match ops with
+  | [] => []
+  | SetPhi p :: r => arma_run p theta sigma r
+  | SetTheta p :: r => arma_run phi p sigma r
+  | SetSigma s :: r => arma_run phi theta s r
+  | Impulse n :: r => impulse_response phi theta n :: arma_run phi theta sigma r
+  end.
+
 (* ------------------------------------------------------------------ _filter.py *)
 Definition dotp (a b : list Q) : Q := dotQ a b.
 
